@@ -349,6 +349,34 @@ fn retype_paths(x: &XResp, t: &mut Tape) -> Vec<(Vec<String>, &'static str, J)> 
             }
         }
     }
+    // null in place of a required member (or of a required repeated-element array) is a wrong type as well
+    for (path, name) in required_paths(x) {
+        let label: &'static str = match name {
+            "response" => "response:null",
+            "protocol" => "protocol:null",
+            "app" => "app:null",
+            "appid" => "appid:null",
+            "app.status" => "app.status:null",
+            "updatecheck.status" => "updatecheck.status:null",
+            "url.codebase" => "url.codebase:null",
+            "manifest.version" => "manifest.version:null",
+            "package.name" => "package.name:null",
+            _ => "ping.status:null",
+        };
+        out.push((path, label, J::Null));
+    }
+    for (i, a) in x.apps.iter().enumerate() {
+        let i = i.to_string();
+        if let Some(u) = &a.uc {
+            if u.urls.is_some() {
+                out.push((s(&["response", "app", &i, "updatecheck", "urls", "url"]), "url:null", J::Null));
+            }
+            if u.manifest.is_some() {
+                out.push((s(&["response", "app", &i, "updatecheck", "manifest", "packages", "package"]), "package:null", J::Null));
+                out.push((s(&["response", "app", &i, "updatecheck", "manifest", "actions", "action"]), "action:null", J::Null));
+            }
+        }
+    }
     let _ = t;
     out
 }
